@@ -7,7 +7,7 @@ LEVEL = "proof"
 DESIGN_REF = "DESIGN.md §9 C07, §12.C07"
 COQ_TARGETS = ["Properties/C07", "Pins/C07"]
 THEOREMS = [("PdfV.Properties.C07", n) for n in
-            ["C07_page", "C07_count", "C07_pages", "C07_inherit", "C07_depth_budget", "C07_keys", "C07_no_panic"]]
+            ["C07_page", "C07_count", "C07_pages", "C07_inherit", "C07_full", "C07_depth_budget", "C07_keys", "C07_no_panic"]]
 ANCHORS = ["types.rs:PageTree", "types.rs:PagesNode", "types.rs:struct Page", "file.rs:File::num_pages"]
 MODES = ["page_query", "page_iter", "page_spec"]
 TRUSTED_BASE = ["coqc 8.16.1 kernel (vm_compute for table lemmas and examples; no native_compute)",
